@@ -152,7 +152,10 @@ func TestVerif_C12_Announcer(t *testing.T) {
 	}
 	verifadm.Run(t, rep, w, steps, cases, map[string]verifadm.Driver{"Announcer.Announce": drive})
 
-	// streams of messages (specs/Admission/AdmissionLoop.tla): the ready list after 1..3 announcements
+	// streams of messages (specs/Admission/AdmissionLoop.tla): the ready list after 1..3 announcements;
+	// the sequences are stated in their own (4-seat) world
+	w = verifadm.LoadLoopWorld(t)
+	validator = w.Validator()
 	verifadm.RunSequences(t, rep, "pkg/protocol/announcer/Announcer.Announce", func(q *verifadm.Sequence) (verifadm.LoopState, string, error) {
 		var out verifadm.LoopState
 		var msgs []net.Message
